@@ -27,7 +27,8 @@ DRIVER = "Driver/C26.lean"
 OBLIGATIONS = ["NiftyVerif.C26." + t for t in (
     "consecutive_length_spec", "save_postcondition", "load_of_fresh", "save_load_roundtrip", "stale_never_leaks",
     "save_overwrite_succeeds", "load_partition_independent", "welford_mean", "welford_var", "n1_variance_zero",
-    "sample_stat_spec", "welford_merge")]
+    "sample_stat_spec", "welford_merge", "refused_save_changes_nothing", "refused_on_nonempty_fresh",
+    "refused_save_then_load", "nonoverwrite_write_preserves_existing")]
 RULE = ("history = sequence of save(list length 0..6, task partition, overwrite?, residual?) / load(task count) ops on 1-3 "
         "bases in one directory, task counts 0(comm=None),1..4 on either side; non-trivial = a shorter list saved over a "
         "longer one, or different task counts on the two sides, or a refused save; distinct by history. "
@@ -184,14 +185,17 @@ def _to_model(h):
 
 def _property_check(h, real):
     """the property itself on the real results: loads after a successful save return that save's samples"""
-    last = {}  # base -> ("ok", xs, mean) | ("unknown",)
+    last = {}  # base -> ("ok", xs, mean)
+    refused = {}
     for op, o in zip(h["ops"], real):
         b = op["b"]
         if op["k"] == "save":
             if o.get("res") == "ok":
                 last[b] = ("ok", op["xs"], op.get("mean"))
+                refused[b] = False
             else:
-                last[b] = ("unknown",)
+                refused[b] = True
+            # a refused save must leave the directory as it was: `last` stays what it is
             continue
         st = last.get(b)
         if not st or st[0] != "ok" or len(st[1]) == 0:
@@ -209,7 +213,7 @@ def _property_check(h, real):
                     {"site": "load", "what": "wrong-mean"})
         if got != st[1]:
             return (f"load of base {BASES[b]!r} with {op['q']} tasks returns samples {got}, last successful save wrote {st[1]}",
-                    {"site": "load", "what": "wrong-samples"})
+                    {"site": "load", "what": "wrong-samples", "after": "refused-save" if refused.get(b) else "save"})
     return None
 
 
@@ -285,6 +289,15 @@ def _targeted(tagger):
             dict(k="load", b=0, q=q, residual=False),
             dict(k="save", b=0, xs=[t() for _ in range(n2 + 1)], p=p1, counts=[n2 + 1] + [0] * (max(p1, 1) - 1), ow=False),
             dict(k="load", b=0, q=1, residual=False)]))
+    # a refused save (no overwrite, several tasks) after a shorter list was saved over a longer one: must change nothing
+    for (n0, n1, n2, p2) in [(6, 2, 4, 2), (5, 1, 5, 3), (4, 2, 6, 4)]:
+        c2 = [n2 // p2 + (1 if i < n2 % p2 else 0) for i in range(p2)]
+        hs.append(dict(kind="history", multi=False, ops=[
+            dict(k="save", b=0, xs=[t() for _ in range(n0)], p=0, counts=[n0], ow=True),
+            dict(k="save", b=0, xs=[t() for _ in range(n1)], p=0, counts=[n1], ow=True),
+            dict(k="save", b=0, xs=[t() for _ in range(n2)], p=p2, counts=c2, ow=False),
+            dict(k="load", b=0, q=0, residual=False),
+            dict(k="load", b=0, q=3, residual=False)]))
     return hs
 
 
